@@ -1331,7 +1331,11 @@ fn match_of(
         }
         return res;
     } else {
-        return solve_expression(expression, identifiers, document);
+        // A single predicate counts as one member
+        return match solve_expression(expression, identifiers, document) {
+            SolverResult::True if count > 1 => SolverResult::False,
+            res => res,
+        };
     }
     SolverResult::False
 }
